@@ -45,7 +45,9 @@ WITNESSES = ("WitnessMergeCarried", "WitnessCrissCross", "WitnessDiverged")
 SFMTS = ("2a", "pack-0.92")
 NPAT = 6
 EXOTIC = (None, "mlprop", "kind")
-MD_ZONES = (3600, 0, -18000, 19800, -1800)      # the directive's own time zone (whole seconds of time: the format's resolution)
+# the directive's own time zone (whole seconds of time: the format's resolution); negative sub-hour offsets round-trip since
+# the parse_patch_date repair (a regression there gets its own signature below)
+MD_ZONES = (3600, 0, -18000, 19800, -1800, -34200)
 # how much of the exported case table is replayed (histories; tamper positions, directive cases, merged combinations per history)
 SIZES = {"quick": dict(small=13, four=30, exotic=6, ntamper=2, nmd=2, nmerge=1),
          "thorough": dict(pats=3, five=100, exotic=30, ntamper=3, nmd=3, nmerge=2)}
@@ -61,9 +63,10 @@ def _text(k, extra=()):
 
 
 def history(P, pat, exotic=None):
-    """Deterministic history over graph P: (dag, trees, meta, features).  Items: d (directory), a (text file, modified /
-    renamed), b (binary file with NUL and 0xff bytes, modified / moved), l (symlink, retargeted), x (file whose executable
-    bit toggles, deleted / re-added), n<k> (files added by revision k).  Revision k without parents starts a new tree; any
+    """Deterministic history over graph P: (dag, trees, meta, features).  Items: d (directory), a (text file, modified;
+    renamed together with a chmod), b (binary file with NUL and 0xff bytes, modified; moved + modified + chmod), l (symlink,
+    moved + retargeted), x (file renamed while its executable bit is set / cleared, deleted / re-added), n<k> (files added by
+    revision k).  Messages and property values include lines that start / end with blanks and tabs.  Revision k without parents starts a new tree; any
     other revision edits its left-hand parent's tree - a merge first takes what the other parents added and their b and l -
     according to edit (k + pat) mod 6.  exotic = 'mlprop' gives even revisions a multi-line revision property, 'kind' makes
     odd revisions change the kind of item l (symlink <-> file)."""
@@ -72,9 +75,9 @@ def history(P, pat, exotic=None):
         rev = "r%d" % k
         f = set()
         if not ps:
-            t = {"d": ("d", "directory", None, False), "a": ("a", "file", _text(k), False),
+            t = {"d": ("d", "directory", None, False), "a": ("a", "file", _text(k), pat % 2 == 0),
                  "b": ("d/b", "file", b"B\x00%d\n\xff\xfe\n" % k, False), "l": ("l", "symlink", "a", False),
-                 "x": ("x", "file", b"#!/bin/sh\necho x\n", pat % 2 == 1)}       # the bit is toggled in both directions
+                 "x": ("x", "file", b"#!/bin/sh\necho x\n", pat % 3 != 0)}       # the bits of a and x are set and cleared over the schedules
         else:
             t = dict(trees["r%d" % ps[0]])
             for o in ps[1:]:
@@ -91,21 +94,21 @@ def history(P, pat, exotic=None):
                 lines = c.splitlines(True)
                 lines[0] = b"first line by r%d\n" % k
                 t["a"] = (p, kind, b"".join(lines) + b"added by r%d\n" % k, ex)
-            if e == 1:
+            if e == 1:                                   # rename + chmod of a text file, content untouched
                 p, kind, c, ex = t["a"]
-                t["a"] = ("a2" if p == "a" else "a", kind, c, ex)
+                t["a"] = ("a2" if p == "a" else "a", kind, c, not ex)
                 p, kind, c, ex = t["b"]
                 t["b"] = (p, kind, b"B\x00%d\n\xff\xfe\nmore\x00\n" % k, ex)
-            if e == 2:
+            if e == 2:                                   # symlink moved + retargeted; x renamed + chmod (both directions over pats)
                 if "l" in t and t["l"][1] == "symlink":
-                    t["l"] = ("l", "symlink", "d/b" if t["l"][2] == "a" else "a", False)
+                    t["l"] = ("d/l" if t["l"][0] == "l" else "l", "symlink", "d/b" if t["l"][2] == "a" else "a", False)
                 if "x" in t:
                     p, kind, c, ex = t["x"]
-                    t["x"] = (p, kind, c, not ex)
+                    t["x"] = ("x2" if p == "x" else "x", kind, c, not ex)
             if e == 3:
                 t["n%d" % k] = ("d/n%d" % k, "file", b"new in r%d\nno newline at end" % k, k % 2 == 0)
-                p, kind, c, ex = t["b"]
-                t["b"] = ("b" if p == "d/b" else "d/b", kind, c, ex)
+                p, kind, c, ex = t["b"]                  # binary file moved + modified + chmod
+                t["b"] = ("b" if p == "d/b" else "d/b", kind, c + b"moved by r%d\x00\n" % k, not ex)
             if e == 4:
                 if "x" in t:
                     del t["x"]
@@ -114,17 +117,18 @@ def history(P, pat, exotic=None):
             if exotic == "kind" and k % 2 == 1 and "l" in t:
                 f.add("kind")
                 if t["l"][1] == "symlink":
-                    t["l"] = ("l", "file", b"was a link until r%d\n" % k, False)
+                    t["l"] = (t["l"][0], "file", b"was a link until r%d\n" % k, False)
                 else:
-                    t["l"] = ("l", "symlink", "a", False)
+                    t["l"] = (t["l"][0], "symlink", "a", False)
             left = trees["r%d" % ps[0]]
             if "l" in t and "l" in left and t["l"][1] != left["l"][1]:
                 f.add("kind")                       # also a merge that takes the other side's kind
-        m = {"message": ("msg r%d\n\nsecond paragraph é\n" % k, "msg r%d" % k, "  indented\n# hash\n=== eq r%d" % k, "")[k % 4],
+        m = {"message": ("msg r%d\n\nsecond paragraph é\n" % k, "msg r%d" % k, "  indented\n# hash\n=== eq r%d" % k, "",
+                         "trailing blank r%d \nand a trailing tab\t" % k, "\ttab first r%d \n" % k)[(k + pat) % 6],
              "committer": "C <c@e.com>" if k % 2 else "Jé Ü <j@e.com>",
              "timezone": (0, 3600, -1800, 19800)[k % 4],
              "timestamp": 1000000000 + 10 * k + (0.5 if k % 3 == 0 else 0),
-             "revprops": {"p": "v é", "empty": ""} if k % 3 == 1 else None}
+             "revprops": ({"p": "v é", "empty": ""}, {"q": "ends in a blank ", "t": "tab\t", "lead": " v"}, None)[(k + pat) % 3]}
         if exotic == "mlprop" and k % 2 == 0:
             f.add("mlprop")
             m["revprops"] = dict(m["revprops"] or {}, bugs="http://b/1 fixed\nhttp://b/2 fixed")
@@ -812,7 +816,8 @@ def run(ctx):
     ctx.cov["histories"] = len(plans)
     ctx.cov["merges_compared"] = sum(1 for r in rows if r["kind"] == "md" and r["c"]["merge"])
     ctx.rule("graphs = all with <= %d revisions and <= 2 ordered parents (TLC); replayed: %s; each with one of 6 edit schedules "
-             "(modify / rename / retarget symlink + executable bit / add + move binary / delete + re-add / nothing; merges "
+             "(modify / rename + chmod / move + retarget symlink, rename + chmod both ways / add, move + modify + chmod binary / delete + "
+             "re-add / nothing; messages and properties with leading / trailing blanks and tabs; merges "
              "take the other side's additions, binary file and symlink) and varying metadata, source format alternating 2a / "
              "pack-0.92; every (base, target) x {4, 0.9}; %d directive cases per history x 12 field combinations, %d of them "
              "merged both ways; %d tamper positions per case; non-trivial = more than one carried revision or a carried "
